@@ -379,19 +379,34 @@ def rule_unrolled(chk, facts):
     """every test of the expected / wire type in a deserialize_* routine happens after unroll_type() resolved type
     names (Var / Knot) on that path: otherwise a value whose type is written through a definition is rejected"""
     D = get_decoder(facts)
-    items = [(k, eb, s) for k, eb, s in D.sites("typetest") if is_decoding_method(k)]
+    items = [(k, eb, s) for k, eb, s in D.sites("typetest") if is_decoding_method(k) or re.search(r"Compound<[^>]*> as ", k)]
     by_fn = {}
     for k, eb, s in items:
         by_fn.setdefault(k, []).append((eb, s))
+    UNROLL_EXEMPT = {
+        "Compound/VariantAccess::unit_variant":
+            "serde calls unit_variant only for a case the Rust side declares without payload; the derive writes that case's type as the "
+            "literal `null`, and the untyped visitor chooses `unit` only for a literal `null`; on the wire a type reference always names "
+            "a compound table entry, never `null`, so the unresolved comparison cannot reject a well-typed value",
+    }
     n = 0
     for k, lst in sorted(by_fn.items()):
         chk.analysed(k)
+        if fn_short(k) in UNROLL_EXEMPT:
+            chk.assume(f"{fn_short(k)}: {UNROLL_EXEMPT[fn_short(k)]}")
+            continue
         n += 1
         bad = []
         for eb, s in lst:
+            fields = {"E": "expect_type", "W": "wire_type"}
             for st in s.states:
-                if not ("unrolled" in st or vouched(st)):
-                    bad.append((s.ln, show(st)))
+                for tag in s.name.split("+"):
+                    fld = fields[tag]
+                    # resolved = unroll_type() ran and the field was not overwritten with an unresolved type since,
+                    #            or the field currently holds the result of trace_type
+                    ok1 = ("unrolled" in st and f"RAW:{fld}" not in st) or f"TR:{fld}" in st or vouched(st)
+                    if not ok1:
+                        bad.append((s.ln, show(st)))
         chk.expect(not bad, f"{fn_short(k)}:types-unrolled-before-test",
                    f"{fn_short(k)} tests the expected or wire type on a path where unroll_type() has not been called: a type that is a "
                    f"reference to a definition (Var / Knot) would be compared unresolved and a well-typed value rejected "
